@@ -59,6 +59,18 @@ CHECKS = {
              'well-formedness = accepted without log message and lexically complete; reduced alphabet '
              'without lone surrogates; DOM structure reached only through the listed carriers.',
         design='3 C03'),
+    'C06': dict(
+        text='The preference object is symbolic: 14 boolean preferences are solver variables and 8 string '
+             'preferences solver-driven choices; for each carrier sheet the real serializer is explored over all '
+             'assignments (the kitchen-sink carrier over all assignments with at most two non-default preferences in '
+             'the quick tier, over all assignments in the thorough tier); the engine forks only on preferences the '
+             'serializer consults, so one path covers every value of the others - for unconsulted content '
+             'preferences the documented effect is checked for both values. Per path: no exception, output without '
+             'INVALID token, reparse equals an independently implemented expected(DOM, prefs), layout preferences '
+             'change white space only, useDefaults() restores the default output; plus the minified preset.',
+        note='Trusted: z3; harness/c06.py expected() as the statement of the documented effects; validOnly, '
+             'lineNumbers and indentSpecificities held at their defaults; DOMs limited to the carriers.',
+        design='3 C06'),
     'C07': dict(
         text='Bounded symbolic model checking of cssutils/codec.py: the detector on every byte string of length '
              '<= 4 (all bytes solver variables; plus @charset headers with symbolic names) is proved equal to the '
